@@ -29,7 +29,7 @@ FILENAME = 'answer.py'
 
 PATTERNS = {'default': (r'^(##### Part .+)$', '##### Part %d'), 'custom': (r'^(# --- .+ ---)$', '# --- step %d ---'),
             'swallows-newline': (r'^(# === .*\n)', '# === part %d ===')}
-GOOD_LINES = ['# page \x0c break', '{v}_s = "sep\u2028arator"', '# nel \x85 vt \x0b fs \x1c', '{v} = {n}', 'print({v})', '{v} = {v} + 1', 'for k{i} in range(2):\n    print(k{i})', 'def f{i}(x):\n    return x + {n}', 'print(f{i}(2))' ,
+GOOD_LINES = ['cr{i}_a = 1\rcr{i}_b = 2', '# page \x0c break', '{v}_s = "sep\u2028arator"', '# nel \x85 vt \x0b fs \x1c', '{v} = {n}', 'print({v})', '{v} = {v} + 1', 'for k{i} in range(2):\n    print(k{i})', 'def f{i}(x):\n    return x + {n}', 'print(f{i}(2))' ,
               '', '# comment', 'if {v} > 1:\n    print("big")\nelse:\n    print("small")', '{v}_list = [{n}, {n}]\nprint(len({v}_list))']
 DIAGNOSTICS = {
     'syntax': ['bad = (1,', 'if True print(1)', '    indented = 1', 'x = = 2'],
@@ -139,7 +139,7 @@ class Stepper:
         s, e = self.chunks[j]
         if self.setup['independent'] or j == 0:
             code = self.text[s:e]
-            positioned = '\n' * self.text[:s].count('\n') + code
+            positioned = '\n' * len(re.findall(r'\r\n|\r|\n', self.text[:s])) + code
         else:
             code = self.text[:e]
             positioned = code
@@ -220,6 +220,9 @@ class Stepper:
                                           % (want, got, self.section, self.mode())))
             elif kind == 'tifa':
                 code, positioned = self.active_reference()
+                if code is None and self.section >= len(self.chunks) and self.report.submission.main_code == self.text:
+                    code = positioned = self.text      # past the last section: the whole file, with its own line numbers
+                    self.flags.add('analysis-past-the-end')
                 if code is None:
                     return viol
                 try:
@@ -376,6 +379,11 @@ class Stepper:
                     except (SyntaxError, ValueError):
                         parses = False
                     if parses:
+                        from pedal.cait.cait_api import parse_program
+                        tree = parse_program()
+                        if ast.dump(tree.astNode) != ast.dump(ast.parse(self.text)):
+                            viol.append(V('C17|presented-code|cait-after-stop', 'after the sections were stopped CAIT still works on another tree than the whole file: %r'
+                                          % ast.unparse(tree.astNode)[:80]))
                         from pedal.tifa.commands import tifa_analysis
                         got = issue_lines(tifa_analysis())
                         want = reference_tifa(self.text)
